@@ -20,9 +20,16 @@ Case format (tree):  [db, query, style, slice]
            | [3, k] Node.children.any(data=k) | [4, k] Node.parent.has(data=k)  (keyword forms) | [5,a,b] and | [6,a,b] or | [7,a] not
          | [7, v, sx] the single-table subclass twice as separate FROM entities: v 0 select(Sub, SubA), 1 select(SubA1, SubA2),
            2 select(Sub.id, SubA.id); .where(X.pid == Y.pid, sx on Y.y)
+         | [8, ccrit] select(aliased(C)).where(ccrit)
+         | [9, sxa, sxb, ccrit] union over C with a criterion added AFTER the union: legacy
+           query(C).filter(a).union(query(C).filter(b)).filter(ccrit); 2.0: select(aliased(C, union.subquery())).where(ccrit)
+         | [10, order] (oracle only) select(P, Pa).join(Pa.children).join(P.children.of_type(Ca)) / the two joins swapped
+         further pcrit: [9, sx] P.tags.any(sx on Node.data) (many-to-many over pn) | [10, sx] P.tags.any(Node.holders.any(sx on P.x))
+         further ccrit: [7, rel] C.parent == None (rel 0) / C.owner == None (rel 1: same join, primaryjoin written FK first)
+           | [9, rel] the same with != None | [8, sx] C.parent.has(P.children.any(sx on C.y))
   style  0 select() + Session.execute() | 1 legacy Session.query()
   slice  [offset, limit]  (limit -1: none) applied to the statement with .offset() / .limit()
-  db     third component: rows of Node as [id, parent_id | None, data | None, 0]
+  db     third component: rows of Node as [id, parent_id | None, data | None, 0]; fourth: association rows [p_id, node_id]
 Observation: [rows, count, exists]; a row is a list of items: entity -> [object number (first occurrence, by identity), pk],
 None entity -> [], column value -> int | [].  An exception is observed as rows [[-9]] / count -9 / exists -9.
 """
@@ -40,7 +47,9 @@ RULE = (
     "pairs), group-by and union queries, each in both styles (select()+execute, legacy Query); plus random databases "
     "(<= 4 parents, <= 5 children, <= 5 self-referential nodes) with random queries of depth <= 2; self-referential "
     "any()/has() in expression and keyword form; the single-table subclass twice as separate FROM entities; "
-    "LIMIT/OFFSET followed by count()/exists() on every shape. Compared with the model: the rows as entity "
+    "LIMIT/OFFSET followed by count()/exists() on every shape; many-to-one == None / != None (default and FK-first "
+    "primaryjoin, plain and aliased); nested any() across a bidirectional many-to-many; union over C with has(any()) "
+    "added after the union; two joins from an entity and its alias (oracle only). Compared with the model: the rows as entity "
     "identities + primary keys / values, count, exists. non-trivial = the query navigates the relationship (join, "
     "any/has/contains, subquery) and the database has a child with a NULL foreign key or a NULL value"
 )
@@ -84,6 +93,8 @@ ANCHORS = [
     ("lib/sqlalchemy/orm/query.py", "Query._iter"),
     ("lib/sqlalchemy/orm/query.py", "Query.count"),
     ("lib/sqlalchemy/orm/query.py", "Query.exists"),
+    ("lib/sqlalchemy/orm/relationships.py", "RelationshipProperty._lazy_none_clause"),
+    ("lib/sqlalchemy/sql/util.py", "adapt_criterion_to_null"),
     ("lib/sqlalchemy/orm/query.py", "Query._from_selectable"),
     ("lib/sqlalchemy/orm/query.py", "Query._legacy_from_self"),
 ]
@@ -101,12 +112,13 @@ SX_ATOMS = [[0], [1, 0, 1], [1, 4, 1], [2], [5, [1, 0, 1]]]
 DBS = [
     # parents 1 (x=1), 2 (x NULL), 3 (x=2, no children); children incl. an orphan (9), Sub rows, NULL y, duplicates of y
     [[[1, 1], [2, None], [3, 2]], [[4, 1, 1, 0], [5, 1, 1, 1], [6, 2, None, 1], [7, 2, 2, 0], [9, None, 1, 1]],
-     [[1, None, 1, 0], [2, 1, 0, 0], [3, 2, 1, 0], [4, None, 0, 0], [5, 1, None, 0]]],
+     [[1, None, 1, 0], [2, 1, 0, 0], [3, 2, 1, 0], [4, None, 0, 0], [5, 1, None, 0]],
+     [[1, 1], [2, 1], [3, 2], [1, 5]]],
     # every child of parent 1 is a non-Sub; parent 2 has only Sub children
     [[[2, 0], [1, 3]], [[1, 1, 0, 0], [2, 1, 3, 0], [3, 2, 3, 1], [8, None, None, 0], [4, 2, 1, 1]],
-     [[2, 2, 1, 0], [1, 2, 3, 0]]],
+     [[2, 2, 1, 0], [1, 2, 3, 0]], [[2, 1], [1, 1], [1, 2]]],
     # no children at all / a single parent
-    [[[5, None]], [], []],
+    [[[5, None]], [], [], []],
 ]
 
 
@@ -124,10 +136,10 @@ def _gsx(rng, d=2):
 
 
 def _gpc(rng, db, d=2):
-    k = rng.choice([0, 1, 1, 2, 3, 4, 5, 6, 6, 7, 8]) if d > 0 else rng.choice([0, 1, 2, 3, 7, 8])
+    k = rng.choice([0, 1, 1, 2, 3, 4, 5, 6, 6, 7, 8, 9, 10, 10]) if d > 0 else rng.choice([0, 1, 2, 3, 7, 8, 9, 10])
     if k == 3 and not db[1]:
         k = 1
-    if k in (0, 1, 2, 7, 8):
+    if k in (0, 1, 2, 7, 8, 9, 10):
         return [k, _gsx(rng, 1)]
     if k == 3:
         return [3, rng.choice(db[1])[0]]
@@ -137,8 +149,10 @@ def _gpc(rng, db, d=2):
 
 
 def _gcc(rng, d=2):
-    k = rng.choice([0, 1, 1, 4, 5, 6]) if d > 0 else rng.choice([0, 1])
-    if k in (0, 1):
+    k = rng.choice([0, 1, 1, 4, 5, 6, 7, 8, 9]) if d > 0 else rng.choice([0, 1, 7, 8, 9])
+    if k in (7, 9):
+        return [k, rng.randint(0, 1)]
+    if k in (0, 1, 8):
         return [k, _gsx(rng, 1)]
     if k in (4, 5):
         return [k, _gcc(rng, d - 1), _gcc(rng, d - 1)]
@@ -154,7 +168,9 @@ def _gdb(rng):
     ]
     ids = rng.sample(range(1, 9), rng.randint(0, 5))
     ns = [[i, rng.choice([None] + ids * 2), rng.choice(V), 0] for i in ids]
-    return [ps, cs, ns]
+    pn = [[p[0], n] for p in ps for n in ids if rng.random() < 0.35]
+    rng.shuffle(pn)
+    return [ps, cs, ns, pn]
 
 
 def _gnc(rng, d=2):
@@ -175,7 +191,7 @@ def _gslice(rng):
 
 
 def _gq(rng, db):
-    sh = rng.choice([0, 0, 1, 2, 2, 3, 4, 5, 6, 6, 7])
+    sh = rng.choice([0, 0, 1, 2, 2, 3, 4, 5, 6, 6, 7, 8, 9, 9])
     if sh == 0:
         return [0, _gpc(rng, db)]
     if sh == 1:
@@ -188,6 +204,10 @@ def _gq(rng, db):
         return [4, _gsx(rng, 1)]
     if sh == 6:
         return [6, _gnc(rng)]
+    if sh == 8:
+        return [8, _gcc(rng)]
+    if sh == 9:
+        return [9, _gsx(rng, 1), _gsx(rng, 1), _gcc(rng, 1)]
     if sh == 7:
         return [7, rng.randrange(3), _gsx(rng, 1)]
     return [5, _gpc(rng, db, 1), _gpc(rng, db, 1)]
@@ -195,14 +215,20 @@ def _gq(rng, db):
 
 def _enum_queries(db, rng, tier):
     qs = []
-    patoms = [[k, s] for k in (0, 1, 2, 7, 8) for s in SX_ATOMS] + [[3, c[0]] for c in db[1][-2:]]
+    patoms = [[k, s] for k in (0, 1, 2, 7, 8, 9, 10) for s in SX_ATOMS] + [[3, c[0]] for c in db[1][-2:]]
     for a in patoms:
         qs.append([0, a])
         qs.append([0, [6, a]])
-    catoms = [[k, s] for k in (0, 1) for s in SX_ATOMS]
+    catoms = [[k, s] for k in (0, 1, 8) for s in SX_ATOMS] + [[k, r] for k in (7, 9) for r in (0, 1)]
     for a in catoms:
         qs.append([1, a])
         qs.append([1, [6, a]])
+    for a in catoms[10:]:
+        qs.append([8, a])
+        qs.append([8, [6, a]])
+    for post in catoms[5:]:
+        qs.append([9, [1, 0, 1], [2], post])
+        qs.append([9, [0], [1, 4, 1], [6, post]])
     pairs = [([0], [0]), ([1, 0, 1], [0]), ([0], [5, [1, 0, 1]]), ([2], [2])]
     for outer in (0, 1):
         for tg in (0, 1, 2, 3):
@@ -239,11 +265,34 @@ def gen_cases(rng, tier):
             for sl in ([1, -1], [2, -1], [0, 2], [1, 1], [2, 3], [9, -1]):
                 for style in (0, 1):
                     cases.append({"in": [db, q, style, sl], "kind": "slice"})
+    # two joins, one from an alias of P and one from P itself, in both orders (oracle only: not a model shape)
+    for db in DBS[:2] + [_gdb(rng) for _ in range(6)]:
+        for order in (0, 1):
+            for style in (0, 1):
+                cases.append({"in": [db, [10, order], style, [0, -1]], "kind": "twojoins", "model": False})
     for _ in range(4000 if tier == "thorough" else 330):
         db = _gdb(rng)
         for _ in range(3):
             cases.append({"in": [db, _gq(rng, db), rng.randint(0, 1), _gslice(rng)], "kind": "random"})
+    for c in cases:
+        if _aliased_nested(c["in"]):
+            c["model"] = False  # known defect of the unmodified tree, not modelled: oracle only
     return cases
+
+
+def _ccrit_has_nested(t):
+    if isinstance(t, list) and t:
+        if t[0] == 8 and len(t) == 2:
+            return True
+        if t[0] in (4, 5, 6):
+            return any(_ccrit_has_nested(x) for x in t[1:])
+    return False
+
+
+def _aliased_nested(inp):
+    """has(any()) coming back to C, asked of an ALIASED C entity (select(aliased(C)) / aliased(C, union))"""
+    q, style = inp[1], inp[2]
+    return (q[0] == 8 and _ccrit_has_nested(q[1])) or (q[0] == 9 and style == 0 and _ccrit_has_nested(q[3]))
 
 
 def nontrivial(c):
@@ -280,6 +329,7 @@ def _mapping():
         id = Column(Integer, primary_key=True)
         x = Column(Integer)
         children = relationship("C", back_populates="parent", order_by="C.id")
+        tags = relationship("Node", secondary="pn", back_populates="holders")
 
     class C(Base):
         __tablename__ = "c"
@@ -288,6 +338,8 @@ def _mapping():
         y = Column(Integer)
         kind = Column(Integer, nullable=False)
         parent = relationship("P", back_populates="children")
+        # the same many-to-one with the primaryjoin written foreign key first
+        owner = relationship("P", primaryjoin="C.pid == P.id", viewonly=True)
         __mapper_args__ = {"polymorphic_on": "kind", "polymorphic_identity": 0}
 
     class Sub(C):
@@ -300,10 +352,16 @@ def _mapping():
         data = Column(Integer)
         children = relationship("Node", back_populates="parent", order_by="Node.id")
         parent = relationship("Node", back_populates="children", remote_side=[id])
+        holders = relationship("P", secondary="pn", back_populates="tags")
+
+    from sqlalchemy import Table
+
+    Table("pn", Base.metadata, Column("p_id", ForeignKey("p.id")), Column("n_id", ForeignKey("node.id")))
 
     configure_mappers()
     _M["v"] = (Base, P, C, Sub)
     _M["node"] = Node
+    _M["pn"] = Base.metadata.tables["pn"]
     return _M["v"]
 
 
@@ -344,7 +402,18 @@ def _pcrit(t, Pe, s, orm):
             return Pe.id.in_(select(C.pid).where(_sx(t[1], C.y)))
         if k == 3:
             return Pe.children.contains(s.get(C, t[1]))
+        if k == 9:
+            return Pe.tags.any(_sx(t[1], _M["node"].data))
+        if k == 10:
+            return Pe.tags.any(_M["node"].holders.any(_sx(t[1], P.x)))
     else:
+        if k in (9, 10):
+            nt, at, at2, p2 = _M["node"].__table__.alias(), _M["pn"].alias(), _M["pn"].alias(), P.__table__.alias()
+            if k == 9:
+                inner = _sx(t[1], nt.c.data)
+            else:
+                inner = exists().where(nt.c.id == at2.c.n_id, p2.c.id == at2.c.p_id, _sx(t[1], p2.c.x))
+            return exists().where(Pe.c.id == at.c.p_id, nt.c.id == at.c.n_id, inner).correlate(Pe)
         if k in (1, 7):
             return exists().where(ct.c.pid == Pe.c.id, _sx(t[1], ct.c.y)).correlate(Pe)
         if k == 2:
@@ -374,6 +443,17 @@ def _ccrit(t, Ce, s, orm):
         if orm:
             return Ce.parent.has(_sx(t[1], P.x))
         return exists().where(pt.c.id == Ce.c.pid, _sx(t[1], pt.c.x)).correlate(Ce)
+    if k in (7, 9):
+        if orm:
+            rel = Ce.owner if t[1] else Ce.parent
+            return (rel == None) if k == 7 else (rel != None)  # noqa: E711
+        return Ce.c.pid.is_(None) if k == 7 else Ce.c.pid.is_not(None)
+    if k == 8:
+        if orm:
+            return Ce.parent.has(P.children.any(_sx(t[1], C.y)))
+        p2, c2 = pt.alias(), C.__table__.alias()
+        inner = exists().where(c2.c.pid == p2.c.id, _sx(t[1], c2.c.y))
+        return exists().where(p2.c.id == Ce.c.pid, inner).correlate(Ce)
     if k == 4:
         return and_(_ccrit(t[1], Ce, s, orm), _ccrit(t[2], Ce, s, orm))
     if k == 5:
@@ -423,6 +503,10 @@ def _kinds(q):
         return ["C", "P"]
     if sh == 6:
         return ["N"]
+    if sh in (8, 9):
+        return ["C"]
+    if sh == 10:
+        return ["P", "P"]
     if sh == 7:
         return [None, None] if q[1] == 2 else ["C", "C"]
     return ["P", None]
@@ -465,6 +549,24 @@ def _orm_stmt(q, s, legacy):
     if sh == 6:
         Node = _M["node"]
         return getattr(sel(Node), wh)(_ncrit(q[1], Node, True)).order_by(Node.id)
+    if sh == 8:
+        Ca = aliased(C)
+        return getattr(sel(Ca), wh)(_ccrit(q[1], Ca, s, True)).order_by(Ca.id)
+    if sh == 9:
+        if legacy:
+            q1 = s.query(C).filter(_sx(q[1], C.y))
+            q2 = s.query(C).filter(_sx(q[2], C.y))
+            return q1.union(q2).filter(_ccrit(q[3], C, s, True)).order_by(C.id)
+        u = union(select(C).where(_sx(q[1], C.y)), select(C).where(_sx(q[2], C.y))).subquery()
+        Ca = aliased(C, u)
+        return select(Ca).where(_ccrit(q[3], Ca, s, True)).order_by(Ca.id)
+    if sh == 10:
+        Pa, Ca = aliased(P), aliased(C)
+        if q[1] == 0:
+            st = sel(P, Pa).join(Pa.children).join(P.children.of_type(Ca))
+        else:
+            st = sel(P, Pa).join(P.children.of_type(Ca)).join(Pa.children)
+        return st.order_by(P.id, Pa.id, C.id, Ca.id)
     if sh == 7:
         A = aliased(Sub) if q[1] == 1 else Sub
         B = aliased(Sub)
@@ -509,6 +611,17 @@ def _core_stmt(q, s):
     if sh == 6:
         nt = _M["node"].__table__
         return select(nt.c.id).where(_ncrit(q[1], nt, False)).order_by(nt.c.id)
+    if sh == 8:
+        ca = ct.alias()
+        return select(ca.c.id).where(_ccrit(q[1], ca, s, False)).order_by(ca.c.id)
+    if sh == 9:
+        u = union(select(ct).where(_sx(q[1], ct.c.y)), select(ct).where(_sx(q[2], ct.c.y))).subquery()
+        return select(u.c.id).where(_ccrit(q[3], u, s, False)).order_by(u.c.id)
+    if sh == 10:
+        pa, c1, c2 = pt.alias(), ct.alias(), ct.alias()
+        j1 = pt.join(c2, c2.c.pid == pt.c.id)
+        j2 = pa.join(c1, c1.c.pid == pa.c.id)
+        return select(pt.c.id, pa.c.id).select_from(j1, j2).order_by(pt.c.id, pa.c.id, c1.c.id, c2.c.id)
     if sh == 7:
         a, b = ct.alias(), ct.alias()
         return (
@@ -543,6 +656,8 @@ def impl(c):
                 conn.execute(insert(C.__table__).values(id=i, pid=_n(pid), y=_n(y), kind=kind))
             for i, pid, y, _k in sorted(db[2], key=lambda r: r[0]):
                 conn.execute(insert(_M["node"].__table__).values(id=i, parent_id=_n(pid), data=_n(y)))
+            for pi, ni in db[3]:
+                conn.execute(insert(_M["pn"]).values(p_id=pi, n_id=ni))
         kinds = _kinds(q)
         with Session(e) as s:
             st = _orm_stmt(q, s, bool(style))
@@ -657,6 +772,10 @@ def match_finding(c, what):
     db, q, style, sl = c["in"]
     if what.startswith("legacy-uniquing:") and style == 1:
         return "C41-legacy-query-uniquing"
+    if what.startswith("rows:") and _aliased_nested(c["in"]):
+        return "C41-aliased-has-nested-any-adapted"
+    if what.startswith("rows:") and q[0] == 10 and q[1] == 0:
+        return "C41-join-from-entity-after-alias-join"
     if what.startswith("contains-orphan:") and _negated_orphan(db, q[1:], False):
         return "C41-not-contains-orphan"
     return None
